@@ -2,33 +2,61 @@
 open Model
 open Conv
 
-(* ---- C18 BitList ---- *)
+(* same deterministic bit pattern as batchBit in go/impl/bitlist.go *)
+let batch_bit i seed =
+  let x = ref ((i * seed + (i lsr 3) + seed) land 0xFFFF) and c = ref 0 in
+  while !x <> 0 do c := !c + (!x land 1); x := !x lsr 1 done;
+  !c mod 2 = 1
+
+(* one token -> the list of model operations it stands for (a variadic AddBit call is the
+   per-bit loop of the Go code) *)
+let parse_ops op =
+  let rest = String.sub op 1 (String.length op - 1) in
+  match op.[0] with
+  | 'a' -> [OpAddBit (rest = "1")]
+  | 'A' -> (match split_on ':' rest with
+            | [n; seed] -> let n = int_of_string n and seed = int_of_string seed in
+              List.init n (fun i -> OpAddBit (batch_bit i seed))
+            | _ -> failwith "bad")
+  | 'y' -> [OpAddByte (z_of_string rest)]
+  | 's' -> (match split_on ':' rest with [v; k] -> [OpAddBits (z_of_string v, z_of_string k)] | _ -> failwith "bad")
+  | 'S' -> (match split_on ':' rest with [i; b] -> [OpSetBit (z_of_string i, b = "1")] | _ -> failwith "bad")
+  | 'g' -> [OpGetBit (z_of_string rest)]
+  | 'l' -> [OpLen]
+  | 'b' -> [OpGetBytes]
+  | 'i' -> [OpIterBytes]
+  | _ -> failwith "bad op"
+
+let show = function
+  | OutNone -> "-"
+  | OutBool b -> if b then "T" else "F"
+  | OutInt z -> string_of_int (int_of_z z)
+  | OutBytes l -> hex_of_zlist l
+  | OutPanic -> "PANIC"
+
+(* keep one output per token: the output of the token's last operation *)
+let per_token (groups : blop list list) (outs : blout list) =
+  let rec go groups outs acc =
+    match groups with
+    | [] -> List.rev acc
+    | g :: gs ->
+      let n = List.length g in
+      let rec drop k l = if k = 0 then l else drop (k - 1) (List.tl l) in
+      if n = 0 then go gs outs ("-" :: acc)
+      else
+        let last = List.nth outs (n - 1) in
+        go gs (drop n outs) (show last :: acc) in
+  go groups outs []
+
+let bits_str l = String.concat "" (List.map (fun b -> if b then "1" else "0") l)
+
 let () = register "bl" (fun args ->
   match args with
   | [] -> "BAD"
   | n :: ops ->
-    let parse op =
-      let rest = String.sub op 1 (String.length op - 1) in
-      match op.[0] with
-      | 'a' -> OpAddBit (rest = "1")
-      | 'y' -> OpAddByte (z_of_string rest)
-      | 's' -> (match split_on ':' rest with [v; k] -> OpAddBits (z_of_string v, z_of_string k) | _ -> failwith "bad")
-      | 'S' -> (match split_on ':' rest with [i; b] -> OpSetBit (z_of_string i, b = "1") | _ -> failwith "bad")
-      | 'g' -> OpGetBit (z_of_string rest)
-      | 'l' -> OpLen
-      | 'b' -> OpGetBytes
-      | 'i' -> OpIterBytes
-      | _ -> failwith "bad op" in
-    match bl_history (z_of_string n) (List.map parse ops) with
-    | Ok (bl, outs) ->
-      let show = function
-        | OutNone -> "-"
-        | OutBool b -> if b then "T" else "F"
-        | OutInt z -> string_of_int (int_of_z z)
-        | OutBytes l -> hex_of_zlist l
-        | OutPanic -> "PANIC" in
-      String.concat " " (List.map show outs) ^ " | " ^
-      String.concat "" (List.map (fun b -> if b then "1" else "0") (bl_abs bl))
+    let groups = List.map parse_ops ops in
+    match bl_history (z_of_string n) (List.concat groups) with
+    | Ok (bl, outs) -> String.concat " " (per_token groups outs) ^ " | " ^ bits_str (bl_abs bl)
     | Err -> "ERR"
     | Panic -> "PANIC"
     | OutOfFuel -> "OUTOFFUEL")
@@ -38,26 +66,7 @@ let () = register "blspec" (fun args ->
   match args with
   | [] -> "BAD"
   | n :: ops ->
-    let parse op =
-      let rest = String.sub op 1 (String.length op - 1) in
-      match op.[0] with
-      | 'a' -> OpAddBit (rest = "1")
-      | 'y' -> OpAddByte (z_of_string rest)
-      | 's' -> (match split_on ':' rest with [v; k] -> OpAddBits (z_of_string v, z_of_string k) | _ -> failwith "bad")
-      | 'S' -> (match split_on ':' rest with [i; b] -> OpSetBit (z_of_string i, b = "1") | _ -> failwith "bad")
-      | 'g' -> OpGetBit (z_of_string rest)
-      | 'l' -> OpLen
-      | 'b' -> OpGetBytes
-      | 'i' -> OpIterBytes
-      | _ -> failwith "bad op" in
+    let groups = List.map parse_ops ops in
     let init = List.init (int_of_string n) (fun _ -> false) in
-    let (l, outs) = spec_run init (List.map parse ops) in
-    let show = function
-      | OutNone -> "-"
-      | OutBool b -> if b then "T" else "F"
-      | OutInt z -> string_of_int (int_of_z z)
-      | OutBytes l -> hex_of_zlist l
-      | OutPanic -> "PANIC" in
-    String.concat " " (List.map show outs) ^ " | " ^
-    String.concat "" (List.map (fun b -> if b then "1" else "0") l))
-
+    let (l, outs) = spec_run init (List.concat groups) in
+    String.concat " " (per_token groups outs) ^ " | " ^ bits_str l)
